@@ -33,3 +33,8 @@ import DateutilVerif.Properties.TzObjGen   -- translator tie (wt-iso): tzrange/t
 #print axioms C08.gen_eq_model_transitions
 #print axioms C08.gen_eq_model_zone_eq
 #print axioms C08.gen_eq_model_tzstr_init
+#print axioms C08.parse_weekday_has_week
+#print axioms C08.gen_eq_model_tzlocal_naive_is_dst
+#print axioms C08.gen_eq_model_tzlocal_isdst
+#print axioms C08.gen_eq_model_tzlocal_utcoffset
+#print axioms C08.gen_eq_model_tzlocal_tzname
